@@ -29,7 +29,8 @@ XSD = (f'<xs:schema xmlns:xs="{cm.XS}" targetNamespace="{T}" xmlns:t="{T}" eleme
        '<xs:element name="rec" type="t:rec" maxOccurs="unbounded"/></xs:sequence></xs:complexType></xs:element>'
        '<xs:complexType name="rec"><xs:sequence>'
        '<xs:element name="name" type="xs:string"/><xs:element name="fx" type="xs:int" fixed="1" minOccurs="0"/>'
-       '<xs:element name="tags" minOccurs="0" maxOccurs="2"><xs:simpleType><xs:list itemType="xs:int"/></xs:simpleType></xs:element>'
+       '<xs:element name="tags" minOccurs="0" maxOccurs="2"><xs:simpleType><xs:restriction><xs:simpleType>'
+       '<xs:list itemType="xs:int"/></xs:simpleType><xs:minLength value="2"/></xs:restriction></xs:simpleType></xs:element>'
        '<xs:element name="code" type="t:code" minOccurs="0"/>'
        '<xs:element name="opt" type="xs:int" nillable="true" minOccurs="0"/>'
        '<xs:element name="mark" minOccurs="0"><xs:complexType><xs:attribute name="lvl" type="xs:int"/></xs:complexType></xs:element>'
@@ -42,9 +43,13 @@ XSD = (f'<xs:schema xmlns:xs="{cm.XS}" targetNamespace="{T}" xmlns:t="{T}" eleme
        '</xs:complexType></xs:element>'
        '<xs:choice minOccurs="0" maxOccurs="unbounded"><xs:element name="a" type="xs:int"/>'
        '<xs:element name="b" type="xs:string"/></xs:choice>'
+       '<xs:sequence minOccurs="0" maxOccurs="unbounded"><xs:element name="n" type="xs:int" minOccurs="0"/>'
+       '<xs:element name="l" type="xs:int" minOccurs="0"/></xs:sequence><xs:element name="t" type="xs:int" minOccurs="0"/>'
        '</xs:sequence><xs:attribute name="id" type="xs:int" use="required"/>'
        '<xs:attribute name="flag" type="xs:boolean"/><xs:attribute name="ucode" type="t:code"/>'
-       '<xs:attribute name="ver" type="xs:int" fixed="1"/></xs:complexType>'
+       '<xs:attribute name="ver" type="xs:int" fixed="1"/><xs:attribute name="kws"><xs:simpleType><xs:restriction>'
+       '<xs:simpleType><xs:list itemType="xs:NMTOKEN"/></xs:simpleType><xs:minLength value="2"/></xs:restriction>'
+       '</xs:simpleType></xs:attribute></xs:complexType>'
        '<xs:complexType name="altBase"><xs:sequence><xs:element name="x" type="xs:string" minOccurs="0"/></xs:sequence>'
        '<xs:attribute name="kind" type="xs:boolean" use="required"/></xs:complexType>'
        '<xs:complexType name="altFull"><xs:complexContent><xs:restriction base="t:altBase"><xs:sequence>'
@@ -54,7 +59,7 @@ XSD = (f'<xs:schema xmlns:xs="{cm.XS}" targetNamespace="{T}" xmlns:t="{T}" eleme
        '<xs:simpleType name="code"><xs:restriction><xs:simpleType><xs:union memberTypes="xs:int xs:string"/>'
        '</xs:simpleType><xs:pattern value="[0-9]{3}|[a-z]{2,5}"/></xs:restriction></xs:simpleType></xs:schema>')
 TEXT = {"f1": "01", "s": "abc", "i": "5", "d": "2.5", "l": "1 2 3", "x": "zz", "u3": "123", "ua": "abc"}
-ATTR = {"f1": "+1", "i": "7", "bool": "true", "boolF": "false", "s": "EUR", "u3": "456", "ua": "xyz", "t": "true", "f": "false"}
+ATTR = {"k2": "ab cd", "f1": "+1", "i": "7", "bool": "true", "boolF": "false", "s": "EUR", "u3": "456", "ua": "xyz", "t": "true", "f": "false"}
 ALT11 = ("<xs:alternative test=\"@kind = 'true'\" type=\"t:altFull\"/><xs:alternative type=\"t:altPlain\"/>")
 XSI_NS = "http://www.w3.org/2001/XMLSchema-instance"
 _schema: dict = {}
@@ -88,6 +93,8 @@ def render(nodes):
         stack.append((tag, mixed))
         if mixed:
             out.append("lead ")
+        elif n["name"] in ("n", "l"):
+            out.append(str(n["path"][-1]))        # distinct values: the ORDER of the siblings is observable
         elif n["text"] != "-":
             out.append(TEXT[n["text"]])
     while stack:
@@ -139,6 +146,10 @@ def abstract(elem):
                 attrs.append(["ver", "f1" if (is_int(v) and int(v) == 1) else "x"])
             elif k == "ucode":
                 attrs.append(["ucode", code_class(v)])
+            elif k == "kws":
+                toks = v.split()
+                attrs.append(["kws", "x" if not all(re.fullmatch(r"[\w.:-]+", t) for t in toks) else
+                              "k2" if len(toks) > 1 else "k1"])
             elif k == "{%s}nil" % XSI_NS:
                 attrs.append(["nil", "t" if v.strip() in ("true", "1") else "f" if v.strip() in ("false", "0") else "x"])
             else:
@@ -151,14 +162,14 @@ def abstract(elem):
             cls = "-"
         elif name == "fx":
             cls = "f1" if (is_int(txt) and int(txt) == 1) else "x"
-        elif name in ("a", "opt"):
+        elif name in ("a", "opt", "n", "l", "t"):
             cls = "i" if is_int(txt) else "x"
         elif name == "code":
             cls = code_class(txt)
         elif name in ("mark", "alt"):
             cls = "x"
         elif name == "tags":
-            cls = "l" if all(is_int(t) for t in txt.split()) else "x"
+            cls = ("l" if len(txt.split()) > 1 else "i") if all(is_int(t) for t in txt.split()) else "x"
         elif name == "price":
             cls = "d" if is_dec(txt) else "x"
         elif name in ("doc", "rec"):
@@ -177,7 +188,7 @@ def typed(elem):
     def val(name, s):
         s = (s or "").strip()
         try:
-            if name in ("a", "id", "opt", "lvl", "ver", "fx"):
+            if name in ("a", "id", "opt", "lvl", "ver", "fx", "n", "l", "t"):
                 return int(s)
             if name in ("code", "ucode") and re.fullmatch(r"[0-9]{3}", s):
                 return int(s)
@@ -187,6 +198,8 @@ def typed(elem):
                 return tuple(int(x) for x in s.split())
             if name in ("flag", "kind"):
                 return s in ("true", "1")
+            if name == "kws":
+                return tuple(s.split())
         except (ValueError, InvalidOperation):
             pass
         return s
@@ -204,6 +217,19 @@ def typed(elem):
             text = val(name, e.text)
         return (name, attrs, text, kids)
     return walk(elem)
+
+
+def nl_canon(t):
+    """typed() tree with the n / l children of every rec regrouped by name (order within a name kept)."""
+    name, attrs, text, kids = t
+    kids = tuple(nl_canon(k) for k in kids)
+    if name == "rec":
+        idx = [i for i, k in enumerate(kids) if k[0] in ("n", "l")]
+        if idx:
+            block = [kids[i] for i in idx]
+            block = [k for k in block if k[0] == "n"] + [k for k in block if k[0] == "l"]
+            kids = kids[:idx[0]] + tuple(block) + kids[idx[-1] + 1:]
+    return (name, attrs, text, kids)
 
 
 def converters():
@@ -305,7 +331,12 @@ def judge(job):
                 continue
             trees.append((name, "roundtrip", abstract(elem), xml))
             if typed(elem) != original:
-                out.append((name, f"encode(decode(x)) differs from x: {typed(elem)} vs {original}"[:500], xml))
+                # F-C05-e: a name-keyed convention cannot tell in which order children of DIFFERENT names alternate
+                # inside the repeated group (n?, l?)*: the encoder picks one valid order (n l n l for n n l l); the
+                # order within each name and everything else must be kept
+                fid = "F-C05-e" if (needs_contiguous and rec.get("runs") and nl_canon(typed(elem)) == nl_canon(original)) \
+                    else None
+                out.append((name, f"encode(decode(x)) differs from x: {typed(elem)} vs {original}"[:500], xml, fid))
                 continue
             try:
                 again = s.decode(elem, converter=conv, namespaces={"t": T, "xsi": XSI_NS})
@@ -325,8 +356,10 @@ def judge(job):
                 else:
                     trees.append((name, "json-roundtrip", abstract(jelem), xml))
                     if typed(jelem) != original:
+                        fid = "F-C05-e" if (needs_contiguous and rec.get("runs")
+                                            and nl_canon(typed(jelem)) == nl_canon(original)) else None
                         out.append((name, f"from_json(to_json(x)) differs from x: {typed(jelem)} vs {original}"[:500],
-                                    xml))
+                                    xml, fid))
             # soundness of strict encoding under mutation
             if name in ("jsonml", "default", "badgerfish"):
                 for k in range(nmut):
@@ -389,10 +422,10 @@ def run(ctx: Ctx):
     rng = random.Random(ctx.seed)
     if not thorough:        # a seeded sixth of the one-record documents
         rng.shuffle(recs)
-        recs = recs[: len(recs) // 14]
+        recs = recs[: len(recs) // 16]
     # a seeded sample of two-record documents
     two = [{"nodes": merge(a["nodes"], b["nodes"]), "contiguous": a["contiguous"] and b["contiguous"],
-            "needs11": a.get("needs11") or b.get("needs11")}
+            "needs11": a.get("needs11") or b.get("needs11"), "runs": a.get("runs") or b.get("runs")}
            for a, b in (rng.sample(recs, 2) for _ in range(300 if thorough else 60))]
 
     docs = recs + two
